@@ -685,6 +685,48 @@ func c16getLine(out *rec.Out, f func() (any, bool)) {
 	out.Line("got 1 %s", c16back(x))
 }
 
+// c16mutate edits a composite value in place (what a caller may do with "its copy"); false for scalars
+func c16mutate(x any) bool {
+	switch v := x.(type) {
+	case map[string]any:
+		for k, e := range v {
+			if !c16mutate(e) {
+				delete(v, k)
+			}
+			break
+		}
+		v["__edited"] = "by the caller"
+		return true
+	case []any:
+		if len(v) == 0 {
+			return false
+		}
+		if !c16mutate(v[0]) {
+			v[0] = "edited by the caller"
+		}
+		return true
+	}
+	return false
+}
+
+func c16deepCopy(x any) any {
+	switch v := x.(type) {
+	case map[string]any:
+		m := make(map[string]any, len(v))
+		for k, e := range v {
+			m[k] = c16deepCopy(e)
+		}
+		return m
+	case []any:
+		s := make([]any, len(v))
+		for i, e := range v {
+			s[i] = c16deepCopy(e)
+		}
+		return s
+	}
+	return x
+}
+
 func c16smallValue(rng *rec.Rng) c16gv {
 	switch rng.Intn(8) {
 	case 0:
@@ -733,8 +775,26 @@ func c16storeCase(out *rec.Out, rng *rec.Rng, nops int, stats map[string]int) {
 		case op < 6:
 			a := rng.Intn(len(locs))
 			k := keys[rng.Intn(len(keys))]
-			out.Line("get %d %s", a, "k:"+c16cps(k))
-			c16getLine(out, func() (any, bool) { return locs[a].GetVariable(k) })
+			if rng.Intn(3) == 0 {
+				// the caller edits what it was handed, in place: later reads must not see that
+				out.Line("getmut %d %s", a, "k:"+c16cps(k))
+				c16getLine(out, func() (any, bool) {
+					x, ok := locs[a].GetVariable(k)
+					if ok {
+						// the line is printed from the returned value BEFORE it is edited (c16getLine prints after return),
+						// so hand back a rendering-safe copy and edit the original
+						cp := c16deepCopy(x)
+						if c16mutate(x) {
+							stats["store_read_result_edited_in_place"]++
+						}
+						return cp, ok
+					}
+					return x, ok
+				})
+			} else {
+				out.Line("get %d %s", a, "k:"+c16cps(k))
+				c16getLine(out, func() (any, bool) { return locs[a].GetVariable(k) })
+			}
 			stats["store_get"]++
 		case op == 6:
 			a := rng.Intn(len(locs))
@@ -766,6 +826,33 @@ func c16storeCase(out *rec.Out, rng *rec.Rng, nops int, stats map[string]int) {
 			stats["store_clone_write"]++
 		case op == 9 && len(locs) < 4:
 			newLoc()
+		}
+	}
+	// a composite value in every store, read, the result edited in place by the caller, read again (twice)
+	for a := range locs {
+		a := a
+		g := c16randTree(rng, 3)
+		out.Line("set %d %s %s", a, "k:"+c16cps("cmp"), strings.Join(g.d, " "))
+		if pk := c16setVar(locs[a], "cmp", g.v); pk != "" {
+			out.Line("ret panic %s", pk)
+			continue
+		}
+		out.Line("ret ok")
+		for rep := 0; rep < 2; rep++ {
+			out.Line("getmut %d %s", a, "k:"+c16cps("cmp"))
+			c16getLine(out, func() (any, bool) {
+				x, ok := locs[a].GetVariable("cmp")
+				if ok {
+					cp := c16deepCopy(x)
+					if c16mutate(x) {
+						stats["store_read_result_edited_in_place"]++
+					}
+					return cp, ok
+				}
+				return x, ok
+			})
+			out.Line("get %d %s", a, "k:"+c16cps("cmp"))
+			c16getLine(out, func() (any, bool) { return locs[a].GetVariable("cmp") })
 		}
 	}
 	// final sweep: every key of every store and clone
